@@ -264,6 +264,12 @@ pub fn run(o: &Opts) -> Report {
         // DESIGN E14: negative error estimate for reversed outer bounds
         Case::Region { f: F2::SqrtKink(0.37), a: 1.0, b: 0.0, ab: Bounds { l: vec![0.0], u: vec![1.0] }, tol: 1e-3, mi: Some(30) },
         Case::Tri { f: F2::Poly(vec![(0, 0, 1.0)]), t: [[0.0, 0.0], [1.0, 0.0], [0.0, 1.0]], tol: 1e-9, mi: Some(10) },
+        // coincident non-finite bounds, outer and inner (seed C10-r5-2): every inner run returns (0,0), and so does the whole
+        Case::Region { f: F2::Jump(0.5), a: f64::INFINITY, b: f64::INFINITY, ab: Bounds { l: vec![0.0], u: vec![1.0] }, tol: 1e-6, mi: Some(5) },
+        Case::Region { f: F2::Jump(0.5), a: f64::NEG_INFINITY, b: f64::NEG_INFINITY, ab: Bounds { l: vec![0.0], u: vec![1.0] }, tol: 1e-6, mi: Some(0) },
+        Case::Region { f: F2::Jump(0.5), a: 0.0, b: 1.0, ab: Bounds { l: vec![f64::INFINITY], u: vec![f64::INFINITY] }, tol: 1e-6, mi: Some(5) },
+        Case::Region { f: F2::Jump(0.5), a: 1.0, b: 0.0, ab: Bounds { l: vec![f64::NEG_INFINITY], u: vec![f64::NEG_INFINITY] }, tol: 1e-6, mi: Some(3) },
+        Case::Region { f: F2::Jump(0.5), a: 0.0, b: 1.0, ab: Bounds { l: vec![1e300], u: vec![1e300] }, tol: 1e-6, mi: Some(3) },
     ];
     for _ in 0..n { cases.push(gen_case(&mut r)); }
     // budget sweep: oscillatory integrands that need several outer bisections, run with the smallest budget that
